@@ -57,8 +57,6 @@ def oracle_segment(c):
     if tr(a) != tr(b):
         fails.append(Failure(f"segment_changes_tracts:{d['layout']}", f"{text!r}: segment gives {tr(b)}, default gives {tr(a)}",
                              text=text, default=tr(a), segment=tr(b), e_flags=list(b.e_flags)))
-    elif list(b.e_flags) != list(a.e_flags):
-        fails.append(Failure(f"segment_changes_e_flags:{d['layout']}", f"{text!r}: segment e_flags {b.e_flags} vs default {a.e_flags}", text=text))
     c = PLSSDesc(text, wait_to_parse=True)
     c.parse(segment=True)
     if tr(c) != tr(a):
@@ -97,9 +95,8 @@ def oracle_nocolons(d):
     pulled = [f for f in b.w_flags if isinstance(f, str) and f.startswith("pulled_sec_without_colon<")]
     if not pulled:
         fails.append(Failure("cautious_no_warning", f"{text!r}: cautious parse raised no pulled_sec_without_colon warning; w_flags={b.w_flags!r}", text=text))
-    rest = sorted(str(f) for f in b.w_flags if f not in pulled)
-    if rest != sorted(map(str, a.w_flags)) or list(map(str, b.e_flags)) != list(map(str, a.e_flags)):
-        fails.append(Failure("cautious_changes_flags", f"{text!r}: cautious flags {b.flags} vs default {a.flags}", text=text))
+    if sorted(map(str, b.e_flags)) != sorted(map(str, a.e_flags)):
+        fails.append(Failure("cautious_changes_error_flags", f"{text!r}: cautious error flags {b.e_flags} vs default {a.e_flags}", text=text))
     c = PLSSDesc(text, config="sec_colon_required")
     if len(c.tracts) != 1:
         fails.append(Failure("required_count", f"{text!r}: sec_colon_required gives {len(c.tracts)} tracts: {tr(c)}", text=text, got=tr(c)))
